@@ -347,12 +347,66 @@ def replay_builtins(tier, rep, check_cost, check_outcome=True):
     return tot
 
 
+def big_json(d):
+    """MC_Serialise data -> interchange data (integers given by the bytes of their CBOR argument become decimal `big` integers)"""
+    if isinstance(d, dict):
+        if d.get("d") == "I" and "big" in d:
+            m = int.from_bytes(bytes(d["big"]["m"]), "big")
+            n = -1 - m if d["big"]["neg"] else m
+            return {"d": "I", "v": n} if abs(n) < (1 << 30) else {"d": "I", "v": 0, "big": str(n)}
+        return {k: big_json(v) for k, v in d.items()}
+    if isinstance(d, list):
+        return [big_json(x) for x in d]
+    return d
+
+
+def serialise_family(rep):
+    """MC_Serialise: the CBOR bytes of Data values (incl. integers around 2^63 / 2^64 given by their bytes) vs the real serialiseData"""
+    r = vlib.tlc("MC_Serialise", workers=2, timeout=600, xmx="2g", metaname="MC_Serialise")
+    if not r.ok:
+        raise vlib.ToolError("MC_Serialise failed: %s\n%s" % (r.error, r.out[-1200:]))
+    cases = r.tagged("REPLAY")
+    if len(cases) < 60:
+        raise vlib.ToolError("MC_Serialise printed only %d cases" % len(cases))
+    terms, meta = [], []
+    for c in cases:
+        d = big_json(c["data"])
+        terms.append({"term": {"k": "app", "f": {"k": "bi", "f": "serialiseData"}, "a": {"k": "con", "c": {"t": "data", "v": d}}}, "var": "E"})
+        meta.append((c, "data constant"))
+        if d.get("d") == "I":
+            ic = {"t": "int", "v": d["v"]}
+            if "big" in d:
+                ic["big"] = d["big"]
+            terms.append({"term": {"k": "app", "f": {"k": "bi", "f": "serialiseData"}, "a": {"k": "app", "f": {"k": "bi", "f": "iData"}, "a": {"k": "con", "c": ic}}}, "var": "E"})
+            meta.append((c, "through iData"))
+    obs = eval_real(terms)
+    n_ok = 0
+    for (c, how), t, o in zip(meta, terms, obs):
+        out = o["out"]
+        got = out.get("v", {}).get("c", {}) if out.get("o") == "val" else None
+        if out.get("o") == "panic":
+            rep.violation("serialise-panic:" + cj(c["data"]) + how, {"data": c["data"], "how": how, "observed": out}, "serialiseData panicked")
+        elif got is None or got.get("t") != "bs" or list(got.get("v", [])) != list(c["bytes"]):
+            rep.violation("serialise:" + cj(c["data"]) + "|" + how, {"data": c["data"], "how": how, "expected_hex": bytes(c["bytes"]).hex(),
+                                                                  "observed": (bytes(got["v"]).hex() if got and got.get("t") == "bs" else out)},
+                          "serialiseData (%s) gives %s, the specification %s" % (how, bytes(got["v"]).hex() if got and got.get("t") == "bs" else json.dumps(out)[:120], bytes(c["bytes"]).hex()))
+        else:
+            n_ok += 1
+    # comparator canary
+    if n_ok < len(terms) - 5 and not rep.violations:
+        raise vlib.ToolError("serialise family: inconsistent bookkeeping")
+    return {"states": r.distinct, "transitions": r.generated, "cases": len(terms), "ok": n_ok,
+            "sample": {"data": cases[40]["data"], "bytes_hex": bytes(cases[40]["bytes"]).hex()}}
+
+
 def c04(tier):
     t0 = time.time()
     rep = vlib.Reporter("C04")
     comparator_canary("C04")
     anc = anchor_spec()
+    ser = serialise_family(rep)
     tot = replay_builtins(tier, rep, check_cost=False)
+    tot["states"] += ser["states"]; tot["transitions"] += ser["transitions"]; tot["cases"] += ser["cases"]; tot["samples"].append({"serialiseData": ser["sample"]})
     if len(tot["per_builtin"]) < 80 or tot["succ"] < 1000:
         raise vlib.ToolError("C04 vacuity: %d builtins, %d successful applications" % (len(tot["per_builtin"]), tot["succ"]))
     cov = {
@@ -370,7 +424,8 @@ def c04(tier):
                         ["UplcBuiltins.tla denotations are my transcription of the Plutus builtin specification, anchored on the "
                          "upstream per-builtin conformance goldens", "hashes, signatures, BLS arithmetic, expModInteger and results "
                          "beyond 2^30 are not computed by the spec: for those only typing / arity / failure shape and absence of "
-                         "crashes are checked"], time.time() - t0, len(rep.violations))
+                         "crashes are checked", "serialiseData is specified separately (MC_Serialise) on a pool of Data values, with integers around "
+                         "2^63 / 2^64 / 2^128 given by the bytes of their CBOR argument"], time.time() - t0, len(rep.violations))
     return rc
 
 
